@@ -425,6 +425,41 @@ pub fn run(tier: &str) -> Result<Report, String> {
     }
     rep.evaluations += npairs;
     rep.violations.extend(pair_bad.into_iter().take(50));
+    // 1b. volume on ONE thread: several hundred thousand distinct sub-formulae of the same length, canonised one after the other
+    //     on this thread, each against its closed form (anything that remembers earlier inputs under a short fingerprint - a
+    //     32-bit hash has a collision among ~80 000 strings - shows here and nowhere else)
+    {
+        let n_vol: usize = if tier == "quick" { 1_000_000 } else { 5_000_000 };
+        let mut n_bad = 0;
+        for i in 0..n_vol {
+            let (text, want_c, want_r): (String, String, Vec<(&str, &str)>) = match i % 3 {
+                0 => (format!("(AX g{i:07})"), format!("(AX g{i:07})"), vec![]),
+                1 => (format!("(EF ({{x}} & g{i:07}))"), format!("(EF ({{var0}} & g{i:07}))"), vec![("x", "var0")]),
+                _ => (format!("(!{{xx}}: ({{x}} EU ({{xx}} | g{i:07})))"), format!("(!{{var0}}: ({{var1}} EU ({{var0}} | g{i:07})))"), vec![("x", "var1")]),
+            };
+            let got = guarded(|| get_canonical_and_renaming(text.clone()));
+            let what = match got {
+                Ok((c, r)) => {
+                    if c != want_c {
+                        Some(format!("canonical form {c:?}, expected {want_c:?}"))
+                    } else if want_r.iter().any(|(k, v)| r.get(*k).map(|x| x.as_str()) != Some(*v)) {
+                        Some(format!("renaming {r:?}, expected at least {want_r:?}"))
+                    } else {
+                        None
+                    }
+                }
+                Err(p) => Some(format!("panic: {p}")),
+            };
+            if let Some(w) = what {
+                n_bad += 1;
+                if n_bad <= 5 {
+                    rep.violations.push(Violation { case: json!({"kind": "none"}), what: format!("sub-formula {text} canonised as number {i} of a long sequence on one thread: {w}"), size: 40 });
+                }
+            }
+        }
+        rep.evaluations += n_vol as u64;
+        rep.set("same_length_subformulae_canonised_in_sequence_on_one_thread", json!(n_vol));
+    }
     // 2. duplicate marking: every single preprocessed formula, all pairs of a subset, all lists <= 3 of the collision alphabet
     let single_bad: Vec<Violation> = formulas
         .par_iter()
